@@ -149,7 +149,8 @@ func Merge[T any](less Less[T], in ...iterator.Iterator[T]) iterator.Iterator[T]
 		initial,
 	)
 	return &mergeIterator[T]{
-		in: in,
+		// The argument list belongs to the caller, who may reuse it once Merge has returned.
+		in: append([]iterator.Iterator[T](nil), in...),
 		h:  h,
 	}
 }
